@@ -65,9 +65,9 @@ enum Kind {
     MasterSync,
     DeliverSync { seq: u16, t1: u64 },
     DeliverFup { seq: u16, t1: u64 },
-    DelayReqAtMaster { seq: u16, ctx: usize, t3_true: u64 },
+    DelayReqAtMaster { seq: u16, ctx: usize, t3_local: i128 },
     DeliverResp { seq: u16, t4: u64 },
-    TxTs { ctx: usize, t3_true: u64 },
+    TxTs { ctx: usize, t3_local: i128 },
     Bmca,
 }
 
@@ -192,7 +192,7 @@ pub fn simulate(p: &Params, bound_ns: f64, t_settle_ns: u64, horizon_ns: u64) ->
                     let m = RMsg::new(T_FOLLOW_UP, MASTER, seq, RBody::FollowUp { precise_origin: RTs::from_ns(BASE_NS + t1 as u128) });
                     acts = node.recv_general(0, &m.encode());
                 }
-                Kind::DelayReqAtMaster { seq, ctx, t3_true } => {
+                Kind::DelayReqAtMaster { seq, ctx, t3_local } => {
                     // master stamps the arrival with true time and answers
                     let back = p.delay_ns + if p.jitter_ns > 0 { rnd() % (p.jitter_ns + 1) } else { 0 };
                     push(&mut heap, now + back, Kind::DeliverResp { seq, t4: now });
@@ -202,15 +202,16 @@ pub fn simulate(p: &Params, bound_ns: f64, t_settle_ns: u64, horizon_ns: u64) ->
                         _ => rnd() % 2 == 0,
                     };
                     if late {
-                        push(&mut heap, now + back + 5_000, Kind::TxTs { ctx, t3_true });
+                        push(&mut heap, now + back + 5_000, Kind::TxTs { ctx, t3_local });
                     }
                 }
                 Kind::DeliverResp { seq, t4 } => {
                     let m = RMsg::new(T_DELAY_RESP, MASTER, seq, RBody::DelayResp { receive: RTs::from_ns(BASE_NS + t4 as u128), requesting: node.port_id(0) });
                     acts = node.recv_general(0, &m.encode());
                 }
-                Kind::TxTs { ctx, t3_true } => {
-                    let ts = local_at(t3_true).max(0) as u128;
+                Kind::TxTs { ctx, t3_local } => {
+                    // the hardware latched the clock reading when the frame left
+                    let ts = t3_local.max(0) as u128;
                     // note: the timestamp is the clock reading at transmission; a step in between shifts the
                     // timescale, which is what real hardware timestamps do as well
                     if let Some((_, a)) = node.tx_timestamp(ctx, time_from_bits(ts)) {
@@ -228,7 +229,7 @@ pub fn simulate(p: &Params, bound_ns: f64, t_settle_ns: u64, horizon_ns: u64) ->
                     if data.len() >= 34 && data[0] & 0xf == T_DELAY_REQ {
                         let seq = ((data[30] as u16) << 8) | data[31] as u16;
                         let j = if p.jitter_ns > 0 { rnd() % (p.jitter_ns + 1) } else { 0 };
-                        push(&mut heap, now + p.delay_ns + j, Kind::DelayReqAtMaster { seq, ctx, t3_true: now });
+                        push(&mut heap, now + p.delay_ns + j, Kind::DelayReqAtMaster { seq, ctx, t3_local: local_at(now) });
                         if p.tx_mode == 0 {
                             let ts = local_at(now).max(0) as u128;
                             if let Some((_, a2)) = node.tx_timestamp(ctx, time_from_bits(ts)) {
